@@ -221,6 +221,7 @@ package plugin
 //@   requires wfstep(r) && nolocks()
 //
 //@ func (*runningStep).runStage
+//@   site call time.After#1 assert [a-cancelled-step-is-waited-for-exactly-the-closure-timeout-in-milliseconds] callarg(time.After, 1, 0) == time.Duration(forceCloseTimeoutMS * 1000000)
 //@   site call transitionStageWithOutput#1 assert [started-output-is-the-declared-empty-object] typeis(startedOutput, map[any]any) && (forall k any :: !indom(startedOutput.(map[any]any), k))
 //@   opt goroutine run
 //@   requires wfstep(r) && nolocks() && r.currentStage == StageIDStarting && afterStarting(r)
@@ -232,6 +233,7 @@ package plugin
 //@        (callres(hasCancellationHandler, 1, 0) ==> called(cancelStep, 1)) && (!callres(hasCancellationHandler, 1, 0) ==> called(forceCloseInternal, 1))
 //
 //@ func (*runningStep).postDeployment
+//@   site call runStage#1 assert [the-run-stage-gets-the-closure-timeout-the-starting-stage-received] callarg(runStage, 1, 1) == callres(startStage, 1, 1)
 //@   opt goroutine run
 //@   requires wfstep(r) && nolocks() && pluginConnection != nil && r.currentStage == StageIDDeploy && fresh0(r)
 //@   modifies r.currentStage, r.state, r.atpClient, r.container, ghost reported, ghost completions, ghost openconn
@@ -299,6 +301,9 @@ package plugin
 //@   requires wfstep(r) && held(r.lock) && lockinv(r)
 //@   ensures [second-hand-over-refused] old(r.runInputAvailable) ==> result != nil && !sentnow(r.runInput)
 //@   ensures [first-hand-over-recorded] !old(r.runInputAvailable) && result == nil ==> r.runInputAvailable && sentnow(r.runInput) && lastsent(r.runInput).stepInputData == input["input"]
+//@   ensures [the-closure-timeout-handed-over-is-the-configured-one-or-the-default] !old(r.runInputAvailable) && result == nil ==> \
+//@        (input["closure_wait_timeout"] == nil ==> lastsent(r.runInput).forceCloseTimeoutMS == defaultClosureTimeout) && \
+//@        (input["closure_wait_timeout"] != nil ==> any(lastsent(r.runInput).forceCloseTimeoutMS) == callres(Unserialize, 2, 0))
 //@   ensures [a-step-given-its-input-no-longer-reports-waiting] result == nil && r.currentStage == StageIDStarting ==> r.state != step.RunningStepStateWaitingForInput
 //@   ensures [lock-invariant-kept] lockinv(r)
 //
